@@ -128,6 +128,7 @@ func runPhase(env Env, p Property, ph Phase, seed uint64, deadline int64, known 
 	wg.Wait()
 	agg := &phaseAgg{Phase: ph, Workers: n, Counters: map[string]int64{}, KnownHits: map[string]int64{}, KnownSample: map[string]json.RawMessage{}}
 	scen, states := newBitmap(), newBitmap()
+	var crashed error
 	for k := 0; k < n; k++ {
 		if errs[k] != nil {
 			// A crash (not a clean exit 2) while a dangerous scenario was in
@@ -144,7 +145,10 @@ func runPhase(env Env, p Property, ph Phase, seed uint64, deadline int64, known 
 					continue
 				}
 			}
-			return nil, fmt.Errorf("worker %d of phase %s failed: %v\n%s", k, ph.Name, errs[k], lastLines(stderrs[k].String(), 30))
+			if crashed == nil {
+				crashed = fmt.Errorf("worker %d of phase %s failed: %v\n%s", k, ph.Name, errs[k], lastLines(stderrs[k].String(), 30))
+			}
+			continue
 		}
 		b, err := os.ReadFile(filepath.Join(outDir, fmt.Sprintf("w%d.json", k)))
 		if err != nil {
@@ -185,6 +189,11 @@ func runPhase(env Env, p Property, ph Phase, seed uint64, deadline int64, known 
 		if err := readBitmapInto(filepath.Join(outDir, fmt.Sprintf("w%d.states", k)), states); err != nil {
 			return nil, err
 		}
+	}
+	if crashed != nil && agg.Violation == nil {
+		// an unattributed worker crash is trouble in the machinery unless
+		// another worker pinned a violation down
+		return nil, crashed
 	}
 	agg.Distinct = scen.count()
 	agg.States = states.count()
